@@ -317,7 +317,7 @@ func runC16(c *Ctx) {
 		nsvc := 0
 		// a few histories start with a shape that is known to matter
 		pre := r.Intn(10)
-		if nhist < 4 { // every run starts with each of them once
+		if nhist < 6 { // every run starts with each of them once
 			pre = nhist
 		}
 		nhist++
@@ -346,6 +346,22 @@ func runC16(c *Ctx) {
 			}
 			have = append(have, "L0", "L1")
 			c.Count("prelude.service-shared-endpoint")
+		case 4: // one service connection with several External-C2 listeners next to each other in the registry, then it goes away
+			w.line(c, "sconn s0")
+			nsvc = 1
+			w.line(c, "sreg s0 exc2 L0 x0")
+			w.line(c, "sreg s0 exc2 L1 x1")
+			w.line(c, "sreg s0 exc2 L2 x2")
+			w.line(c, "sclose s0")
+			have = append(have, "L0", "L1", "L2")
+			c.Count("prelude.service-adjacent")
+		case 5: // an HTTP listener whose port is taken: the start fails after the request was accepted
+			w.line(c, "ladd httpbusy H0")
+			w.line(c, "ladd smb L0")
+			w.line(c, "ladd httpbusy H1")
+			have = append(have, "H0", "L0", "H1")
+			httpNames = append(httpNames, "H0", "H1")
+			c.Count("prelude.failed-start")
 		case 1: // a service's External-C2 listener and an operator request for the same name
 			w.line(c, "sconn s0")
 			nsvc = 1
